@@ -60,6 +60,14 @@ def point_set(rng, n, family):
             if q not in out:
                 out.append(q)
         return out
+    if family == 'dyadic':
+        # random points with short mantissas (k/16, |k| <= 2^11): general position is the rule, exact arithmetic stays cheap
+        out = []
+        while len(out) < n:
+            q = [rng.randint(-2048, 2048) / 16.0, rng.randint(-2048, 2048) / 16.0]
+            if q not in out:
+                out.append(q)
+        return out
     if family == 'uniform':
         return [[rng.uniform(-5, 5), rng.uniform(-5, 5)] for _ in range(n)]
     if family == 'gauss':
@@ -70,7 +78,8 @@ def point_set(rng, n, family):
     raise ValueError(family)
 
 
-SET_FAMILIES = ['grid3', 'grid4', 'grid6', 'line', 'line+1', 'columns', 'fan', 'circle', 'uniform', 'gauss', 'scaled']
+SET_FAMILIES = ['grid3', 'grid4', 'grid6', 'line', 'line+1', 'columns', 'fan', 'circle', 'dyadic', 'uniform', 'gauss', 'scaled']
+FULL_MANTISSA = {'uniform', 'gauss', 'scaled', 'convex'}     # 53-bit mantissas: exact evaluation inside Coq is slow, sizes are capped
 CURVE_FAMILIES = ['grid', 'collinear', 'convex', 'uniform', 'scaled', 'plateau', 'zigzag', 'elbow', 'concave', 'parabola']
 
 
@@ -94,7 +103,7 @@ class C18:
     judge_module = 'Run.JudgeC18'
     rule = ('x-sorted curves (integer grids with collinear runs / plateaus / zigzags / elbows / parabolas, convex and random doubles, '
             'scaled magnitudes) x {lower, upper}; planar sets of distinct points (3x3..6x5 integer grids, fully collinear sets, '
-            'a line plus one point, few columns with several y, fans of rays through the pivot, near-circles, random doubles) in '
+            'a line plus one point, few columns with several y, fans of rays through the pivot, near-circles, short-mantissa random points, random doubles) in '
             'random row order; families enumerated round-robin; non-trivial = at least one point is popped (the hull is a proper '
             'subset); distinct by (routine, points)')
     assumptions = ['coordinates are finite doubles; lower/upper: strictly increasing x; graham_scan: pairwise distinct rows, n >= 3',
@@ -115,11 +124,15 @@ class C18:
         for k in range(nc):
             fam = CURVE_FAMILIES[k % len(CURVE_FAMILIES)]
             n = rng.choice([2, 3, 3, 4, 5, 6, 8]) if rng.random() < 0.5 else rng.randint(2, nmax)
+            if fam in FULL_MANTISSA:
+                n = min(n, 20)
             pts = curve(rng, n, fam)
             cases.append({'kind': 'chain', 'upper': bool((k // len(CURVE_FAMILIES)) % 2), 'family': fam, 'points': pts})
         for k in range(ns):
             fam = SET_FAMILIES[k % len(SET_FAMILIES)]
             n = rng.choice([3, 3, 4, 4, 5, 6, 7]) if rng.random() < 0.5 else rng.randint(3, smax)
+            if fam in FULL_MANTISSA:
+                n = min(n, 8 if tier != 'thorough' else 10)
             pts = point_set(rng, n, fam)
             cases.append({'kind': 'graham', 'family': fam, 'points': pts})
         # near-collinear doubles: the double-precision sign of _ccw differs from the exact sign, so the returned chain is
